@@ -17,7 +17,7 @@ PROPS = {
                 dict(files=["contracts/C07/whole_run_native.rs"],
                      harnesses={"c05_native_whole_runs": dict(anchor="whole runs of the shipped templates (final state)",
                                 bound=B + "every evaluated individual on the final population stack and the best-so-far carry f(solution)")})],
-        min_obligations={"quick": 19, "thorough": 19},
+        min_obligations={"quick": 20, "thorough": 20},
         uncovered=["'after every component execution of every shipped heuristic' (whole runs) is not decided by per-function contracts"],
         assumptions=["Clone/PartialEq of the encoding and objective types behave as vstd's `cloned` / spec eq",
                      "fields `solution`/`objective` are private and only written in src/problems/individual.rs (scan)"],
@@ -48,7 +48,7 @@ PROPS["C04"] = dict(
                 expect=["Populations<P>::rotate", "Populations<P>::try_peek", "Populations<P>::try_pop", "Populations<P>::pop",
                         "Populations<P>::push", "Populations<P>::current_mut", "template::lemma_n_rotations_restore"])],
     kani=[dict(files=["contracts/C04/c04.rs"])],
-    min_obligations={"quick": 26, "thorough": 26},
+    min_obligations={"quick": 27, "thorough": 27},
     uncovered=["RotatePopulations::execute guard (State-based; see C03/C12 glue)"],
     assumptions=["slice::rotate_right(k) moves the last k elements to the front (assumed in Verus, checked by the Kani triples at heights <= 4)",
                  "Vec range IndexMut == as_mut_slice()[range] (closed-list rewrite)"],
@@ -250,7 +250,7 @@ PROPS["C13"] = dict(
                             bound="BOUNDED STAND-IN, native exhaustive enumeration: circular swap (both implementations) every tuple of 2..4 distinct indices on lengths 2..6; translocate (both implementations) all valid cases at lengths 1..6; cycle crossover all pairs of permutations of length 1..5; arithmetic formula and convexity on a 15 x 15 x 10 value grid incl. subnormals"),
                             "c13_native_value_mutations": dict(anchor="mutation components (real, bit)",
                             bound="BOUNDED STAND-IN, native run: Normal/Uniform/PartialRandomSpread and BitFlip/PartialRandomBitstring x rm in {0, 0.5, 1} x dimension 1..4 x population size 0..3 x 32 seeds")})],
-    min_obligations={"quick": 15, "thorough": 15},
+    min_obligations={"quick": 16, "thorough": 16},
     uncovered=["mutation components' execute (State + RNG)", "recombination() driver is only covered by a BOUNDED native run", "real/bit mutations gated by the rate"],
 )
 PROPS["C14"] = dict(
@@ -286,7 +286,7 @@ PROPS["C12"] = dict(
                             bound="BOUNDED STAND-IN, native exhaustive enumeration: 0..3 parents x 0..3 offspring over 5 objective values (ties, +inf) x mu 0..total+1"),
                             "c12_native_random_replacement": dict(anchor="RandomReplacement::replace (real rand shuffle)",
                             bound="BOUNDED STAND-IN, native run: 0..3 parents x 0..3 offspring x mu 0..7 x 16 seeds")})],
-    min_obligations={"quick": 50, "thorough": 50},
+    min_obligations={"quick": 53, "thorough": 53},
     uncovered=["KeepBetterAtIndex is only covered by a BOUNDED native enumeration (ensure! => Kani ICE; iterator chain => Verus rejects)"],
 )
 
@@ -338,7 +338,7 @@ PROPS["C11"] = dict(
                             bound="BOUNDED STAND-IN, native run: 6 populations (sizes 0..5, ties, negatives) x counts 0..n+2 x 6 seeds x 12 operators as components; 4000-draw best-vs-worst frequency for the 4 weight-based operators"),
                             "c11_native_rank_and_weights": dict(anchor="reverse_rank / proportional_weights (kernels)",
                             bound="BOUNDED STAND-IN, native exhaustive enumeration: all populations of size 0..4 over 8 objective values (incl. a 1-ulp near-tie, 1e6, +inf) x 3 (offset, normalise) settings")})],
-    min_obligations={"quick": 40, "thorough": 40},
+    min_obligations={"quick": 41, "thorough": 41},
     uncovered=["ExponentialRank, RouletteWheel, SUS, Tournament, DE selections, FullyRandom, CloneSingle are only covered by a BOUNDED native run "
                "(float powi / accumulation, rejection-sampling loops over a symbolic RNG, State + eyre keep both verifiers out)"],
 )
@@ -377,7 +377,7 @@ PROPS["C01"] = dict(
                                     bound="BOUNDED STAND-IN, native run of the generated triple with payload 0 on its concrete shape (CBMC exhausts 40 GB on std's map-entry machinery)")
                             for n in ["c01_entry_or_insert_a_e", "c01_entry_or_insert_a_e_b", "c01_entry_or_insert_a_a", "c01_entry_or_insert_a_a_b",
                                       "c01_entry_occupied_ops_a_e", "c01_entry_occupied_ops_a_e_b"]})],
-    min_obligations={"quick": 38, "thorough": 38},
+    min_obligations={"quick": 45, "thorough": 45},
     trusted=["std HashMap/HashSet replaced by an association list with the same interface under cfg(kani) (shim/verif_map.rs)",
              "std::cell::RefCell, better_any downcasts: exercised, not specified"],
     uncovered=["histories beyond the enumerated shapes (induction over operations is not machine-checked)", "take / panicking accessors"],
